@@ -8,4 +8,11 @@ mkdir -p bin
 # serialise concurrent builds
 exec 9>bin/.lock
 flock 9
-go build -tags verif -o bin/vcheck ./cmd/vcheck
+if [ -n "$VERIF_REPO" ] && [ "$VERIF_REPO" != "/repo" ]; then
+  # isolated copy of the repository (background runs while /repo is being patched)
+  sed "s|=> /repo|=> $VERIF_REPO|" go.mod > bin/alt.mod
+  cp go.sum bin/alt.sum
+  go build -modfile=bin/alt.mod -tags verif -o bin/vcheck ./cmd/vcheck
+else
+  go build -tags verif -o bin/vcheck ./cmd/vcheck
+fi
